@@ -42,7 +42,7 @@ int main(void) {
         long rc = -9999, start = 1, pos = -2, lpos = -2, lcnt = -2;
         size_t ret = 777777, lret = 0;
         int iret = 777777;
-        int fk = 0, frame_ok = 1, psinit = 1;
+        int fk = 0, frame_ok = 1, psinit = 1, ps0 = 1;
         static uint32_t lbuf32[160];
         static unsigned char lbuf8[160];
         long lstored = 0;
@@ -68,6 +68,7 @@ int main(void) {
         if (flags & 32) { g_mbp = 0; g_wcp = 0; }
         if (fn == 2) start = g_mbp ? (g_mbp - g_mbsrc) + 1 : 0;
         if (fn == 4) start = g_wcp ? (g_wcp - g_wcsrc) + 1 : 0;
+        ps0 = mbsinit(&g_ps) ? 1 : 0;
         /* the standard function on a private copy */
         memset(lbuf8, SENT8, sizeof lbuf8);
         for (i = 0; i < 160; i++) lbuf32[i] = SENT32;
@@ -120,7 +121,7 @@ int main(void) {
                 if (wide_dest && (uint32_t)e == SENT32) e = -1;
                 printf("%s%ld", i ? "," : "", e > 1500000000L ? 1500000000L : e);
             }
-        printf("],\"rc\":%ld,\"ret\":%ld,\"pos\":%ld,\"psinit\":%d,\"lcnt\":%ld,\"lpos\":%ld,\"lout\":[", rc, CLAMP(ret), pos, psinit, lcnt, lpos);
+        printf("],\"rc\":%ld,\"ret\":%ld,\"pos\":%ld,\"psinit\":%d,\"ps0\":%d,\"lcnt\":%ld,\"lpos\":%ld,\"lout\":[", rc, CLAMP(ret), pos, psinit, ps0, lcnt, lpos);
         lstored = (lcnt >= 0 && !dn) ? lcnt + 1 : 0;
         if (fn >= 5 && lcnt >= 0) lstored = lcnt;
         for (i = 0; i < lstored && i < 150; i++) {
